@@ -598,6 +598,14 @@ def check_pair(ctx, rng, edit_name, old_d, new_d, expected, element, extra, dire
             ctx.stat("edit-invalid-schema")
             return None
         return [("differ-raises:%s:%s" % (edit_name, type(e).__name__), "diff_schema raised %r" % e)]
+    # two runs of the same diff give EQUAL, hashable change objects (hunt3 C20/2)
+    try:
+        from py_gql.schema.differ import diff_schema as _ds
+        r1, r2 = list(_ds(o_live, n_live)), list(_ds(o_live, n_live))
+        if r1 != r2 or len(set(r1)) > len(r1):
+            fails.append(("changes-not-comparable:eq", "list(diff_schema(a, b)) == list(diff_schema(a, b)) is False"))
+    except TypeError as e:
+        fails.append(("changes-not-comparable:hash", "set(diff_schema(a, b)) raises %r" % e))
     classes = {c[0] for c in ch}
     safe_marker = {e for e in expected if e.startswith("<")}
     real_expected = expected - safe_marker
@@ -656,6 +664,11 @@ def check_pair(ctx, rng, edit_name, old_d, new_d, expected, element, extra, dire
         if sorted(ch2) != sorted(ch):
             fails.append(("order-dependent:%s" % edit_name, "changes differ after permuting definitions: %s vs %s"
                           % (sorted(set(ch) - set(ch2)), sorted(set(ch2) - set(ch)))))
+        elif ch2 != ch:
+            # the SEQUENCE of yielded changes, not only their set (hunt3 C20/1)
+            first = next((x[0] for x, y in zip(ch, ch2) if x != y), "?")
+            fails.append(("order-dependent:sequence:%s" % first, "the same changes are yielded in another order after permuting definitions: %s vs %s"
+                          % ([c[0] for c in ch][:8], [c[0] for c in ch2][:8])))
     except Exception as e:
         fails.append(("differ-raises-permuted:%s:%s" % (edit_name, type(e).__name__), repr(e)))
     # min_severity filter is a filter
